@@ -145,6 +145,14 @@ func vfBP(v bool) *bool  { return &v }
 
 // vfSimpleMotion is the fixed-threshold configuration under which one toggling interior pixel programs
 // the detector (see DESIGN.md 3.1).
+// vfWideMotion is vfSimpleMotion with the settings that do not matter to a fixed-threshold detector written out at
+// their widest realistic values, so that the motion configuration stored in the recordings' headers is long.
+func vfWideMotion(trigger, edge int) vfMotionOv {
+	m := vfSimpleMotion(trigger, edge)
+	m.TMin, m.TMax = vfIP(28000), vfIP(31000)
+	return m
+}
+
 func vfSimpleMotion(trigger, edge int) vfMotionOv {
 	return vfMotionOv{Dynamic: vfBP(false), TempThresh: vfIP(1000), Delta: vfIP(50), Count: vfIP(1), Gap: vfIP(1),
 		Trigger: vfIP(trigger), Edge: vfIP(edge), OneDiff: vfBP(true), Warmer: vfBP(false)}
